@@ -30,3 +30,14 @@ Definition w_leaffull := [wins 0 7000 1; wins 2 7000 2; wins 1 10000 3].
 Definition w_sepdup := map (fun i => wins i 4000 (i + 1)) [0;1;2;3;4;5;6;7]
   ++ map (fun i => ODelete (wk i)) [4;5;6;7] ++ [OReopen None; wins 4 4000 20].
 
+
+(* class 7: 32 keys of 1000 bytes (values 6000) and 182 one-byte keys (values 8000) inserted in ascending
+   order leave the root with 15 long and 91 short separators (5 bytes free); one more 1000-byte key whose
+   leaf splits makes split_interior put 16 long + 37 short separators into the left half, which does not fit *)
+Definition wbig (i : Z) : key := [65; i + 1] ++ repeat 97 998.
+Definition wtiny (j : Z) : key := [66 + j].
+Fixpoint zrange (n : nat) (from : Z) : list Z := match n with O => [] | S m => from :: zrange m (from + 1) end.
+Definition w_intfull : list (op wval) :=
+  map (fun i => OInsert (wbig i) (6000, i + 1)) (zrange 32 0)
+  ++ map (fun j => OInsert (wtiny j) (8000, j + 33)) (zrange 182 0)
+  ++ [OInsert ([65; 6] ++ repeat 97 998 ++ [1]) (6000, 215)].
